@@ -133,6 +133,25 @@ NOTES.update({
  "C19-6": ("caught", ""),
  "C20-6": ("caught", ""),
 })
+NOTES.update({
+ "C01-7": ("missed at first", "persistent operand objects (one dense array, one sparse container) across several products with in-place updates in between"),
+ "C02-7": ("missed at first (the round-trip clause compared with ==, which does not see the sign of a zero)", "bit-for-bit comparison; conjugate-transposed, negated and mixed-zero-sign inputs"),
+ "C03-7": ("missed at first", "the same sparse container solved again after its stored values were updated in place"),
+ "C05-7": ("caught", ""),
+ "C06-7": ("missed at first: the failing cases were attributed to the open finding F-C06-c because the mechanism tag used a numerical rank threshold", "column-graded full-rank classes carry no rank tag (generator truth: QR is invariant under column scaling); graded last pivot column class"),
+ "C07-7": ("missed at first", "well-conditioned matrices scaled exactly by 2^-500 .. 2^-600: either an exception or factors that reproduce A after exact back-scaling"),
+ "C08-7": ("missed at first", "non-Hermitian inputs with widely graded entries (diagonal entry 4e6 .. 1e12 next to an O(1) asymmetry in small entries), also in C20"),
+ "C09-7": ("missed at first", "nearly Hermitian inputs (relative asymmetry 1e-5 .. 1e-12)"),
+ "C10-7": ("caught", ""),
+ "C11-7": ("caught by thorough only", "determinants of exactly scaled matrices (2^+-60, 2^+-100) in the quick tier"),
+ "C12-7": ("missed at first", "exact power-of-two scalings of the whole problem (2^-200 .. 2^100), exact-rank without oversampling so that no finding tag applies"),
+ "C13-7": ("caught", ""),
+ "C14-7": ("caught", ""),
+ "C17-7": ("missed at first", "lambda = 0 on badly conditioned but invertible blurs (wide Gaussians, kappa 1e6 .. 1e9), bound governed by kappa(A)"),
+ "C18-7": ("missed at first", "SNR of the noise injection on images of one to nine pixels with 20000 draws; per-draw chi-square quantiles"),
+ "C19-7": ("missed at first", "Hermitian scales beyond machine epsilon (2^-56, 2^-60, 1e-30, 2^-200, 1e30)"),
+ "C20-7": ("missed at first", "unknown option values paired with inputs / budgets for which the option is never consulted (triangular, diagonal, identity, zero, 1x1, max_iter = 0, zero right-hand side)"),
+})
 for d in sorted(glob.glob(os.path.join(HERE, "seeded", "C*"))):
     pid = os.path.basename(d)[:3]
     agent = {}
